@@ -258,7 +258,7 @@ def alto_trace(case):
     """run the real export + re-import on one case (see build_page; plus "minconf" in millionths)"""
     page, lines = build_page(case)
     rec = {"W": case["W"], "H": case["H"], "minconf": case["minconf"], "blocks": [], "outcome": "ok",
-           "obs": EMPTY_OBS, "imp_outcome": "none", "imp": [], "confs": [], "sure": []}
+           "obs": EMPTY_OBS, "imp_outcome": "none", "imp": [], "confs": [], "sure": [], "pre": []}
     # sure[tag] (millionths, -1 = nothing known): a lower bound of the line's confidence that holds by construction - alignable
     # posteriors with every character > 0.99 ("peaky", "window") or with label 0.8 against a strongest competitor 0.1 ("mid"):
     # a line whose bound is at or above the requested threshold must not be dropped.
@@ -277,6 +277,8 @@ def alto_trace(case):
                               "lines": [{"text": tokens_of(ln["concrete"]), "sit": ln["sit"],
                                          "conv": [tokens_of(helper().label_form_to_string(w)) for w in ln["concrete"].split()]}
                                         for ln in blk["lines"]]})
+    # what the lines held before the export: the field counts as "the confidence the export computed" only if the export wrote it
+    rec["pre"] = [conf_ppm(ln.transcription_confidence) for ln in lines]
     xml = None
     try:
         xml = page.to_altoxml_string(min_line_confidence=case["minconf"] / 1000000.0)
